@@ -92,7 +92,7 @@ int main (int argc, char **argv) {
 	if (argc < 3) return 2;
 	in = fopen (argv[1], "r"); if (!in) { perror (argv[1]); return 2; }
 	vt_open (argv[2]);
-	p_libsys_init ();
+	p_libsys_init (); p_libsys_shutdown (); p_libsys_init ();      /* the library is used after a shutdown / re-initialisation cycle */
 	while (fgets (line, sizeof line, in)) {
 		a = b = c = 0;
 		if (sscanf (line, "%31s %d %d %d", op, &a, &b, &c) < 1) continue;
